@@ -18,7 +18,7 @@ ASSUMPTIONS = ['order is checked on the probabilities of the reference reading w
 
 
 def specs(tier):
-    t0, t1 = D.TERMINALS
+    t0, t1 = D.TERMINALS[0], D.TERMINALS[1]
     big = {
         'A': {1: [('a', .25), ('b', .25), ('c', .25), ('d', .25)], 3: [('abc', .5), ('xyz', .3), ('qqq', .2)]},
         'C': {1: [('L', .5), ('U', .5)], 3: [('LLL', .6), ('ULL', .2), ('UUU', .2)]},
